@@ -99,13 +99,15 @@ class CancelScenario(FaultEnumScenario):
         # and the next run is free to submit them again
         if w.pending_violation:
             return res
+        if w.cluster is not None and w.cluster.flavour == "slurm" and w.cluster.acct_lag:
+            w.cluster.acct_flush()  # "once the scheduler has carried out the cancellations"
         exp = w.m_status()
         r1 = w.gwf(["status"], "root")
         if r1.exit_code == 0 and r1.exception is None:
             rows = w.parse_status_table(r1.stdout or r1.output)
             for n in selected:
                 jid = pre_latest.get(n)
-                if jid is None or jid in failed_ids:
+                if jid is None or jid in failed_ids or pre_phase.get(n) not in ("pending", "running"):
                     continue
                 if rows.get(n) in ("submitted", "running"):
                     w.flag("C17", "still_live_after_cancel", f"{n} shown {rows.get(n)} after its job {jid} was cancelled",
